@@ -9,7 +9,7 @@ from ..keval import KEval, Ref, Cond, Const, Top
 from ..poly import Poly, ZERO, ONE
 from ..forms import value_poly, real_guards, short, norm_cond, CMP, AND
 from .. import wire
-from ..model import norm_text, AnchorMissing
+from ..model import canon_src, norm_text, AnchorMissing
 from ..controls import Control
 from ..mutate import in_func
 
@@ -127,9 +127,9 @@ def pad_trim_rule(ctx, p, K):
     if m is None:
         raise AnchorMissing("AbstractArray2D.padded_before_convolution_from")
     asg = [n for n in m.body_nodes() if isinstance(n, ast.Assign) and norm_text(n.targets[0]) == "new_shape"]
-    ok = len(asg) == 1 and norm_text(asg[0].value).replace(" ", "") in ("(self.shape_native[0]+(kernel_shape[0]-1),self.shape_native[1]+(kernel_shape[1]-1))", "(self.shape_native[0]+kernel_shape[0]-1,self.shape_native[1]+kernel_shape[1]-1)")
+    ok = len(asg) == 1 and norm_text(asg[0].value) in (canon_src("(self.shape_native[0] + (kernel_shape[0] - 1), self.shape_native[1] + (kernel_shape[1] - 1))"), canon_src("(self.shape_native[0] + kernel_shape[0] - 1, self.shape_native[1] + kernel_shape[1] - 1)"))
     rets = wire.returns_of(m)
-    ok = ok and len(rets) == 1 and norm_text(rets[0].value) == "self.resized_from(new_shape=new_shape, mask_pad_value=mask_pad_value)"
+    ok = ok and len(rets) == 1 and norm_text(rets[0].value) == canon_src("self.resized_from(new_shape=new_shape, mask_pad_value=mask_pad_value)")
     ctx.ob(rule, m.key, ok, where=m, node=m.node, construct=norm_text(asg[0].value) if asg else "", message="padding for a kernel must enlarge each axis by its own kernel extent minus 1 and resize (centred) with the requested mask pad value")
     t = c.lookup("trimmed_after_convolution_from")
     if t is None:
@@ -226,7 +226,7 @@ def zoom_rule(ctx, p, K):
     m = c.lookup("zoomed_around_mask")
     cs = wire.calls_to(p, m, f.key)
     got = {k: norm_text(wire.strip_np_array(v)) for k, v in wire.kw(cs[0], f).items()} if len(cs) == 1 else {}
-    want = {"array_2d": "self.native", "y0": "self.mask.zoom_region[0] - buffer", "y1": "self.mask.zoom_region[1] + buffer", "x0": "self.mask.zoom_region[2] - buffer", "x1": "self.mask.zoom_region[3] + buffer"}
+    want = {k: canon_src(v) for k, v in {"array_2d": "self.native", "y0": "self.mask.zoom_region[0] - buffer", "y1": "self.mask.zoom_region[1] + buffer", "x0": "self.mask.zoom_region[2] - buffer", "x1": "self.mask.zoom_region[3] + buffer"}.items()}
     ctx.ob(rule, m.key, got == want, where=m, node=cs[0] if cs else m.node, construct=str(got), message="the zoom window must be the mask's zoom region widened by the buffer on every side, taken from the native values")
     mk = [cc for cc in m.calls() if norm_text(cc.func) == "Mask2D.all_false"]
     kwv = {k: norm_text(v) for k, v in wire.kw(mk[0]).items()} if mk else {}
@@ -238,7 +238,7 @@ def zoom_rule(ctx, p, K):
     aug = [(norm_text(n.target), type(n.op).__name__, norm_text(n.value)) for n in z.body_nodes() if isinstance(n, ast.AugAssign)]
     widen = all((t in ("y1", "x1") and o == "Add") or (t in ("y0", "x0") and o == "Sub") for t, o, v in aug)
     rets = wire.returns_of(z)
-    ok = ok and widen and len(rets) == 1 and norm_text(rets[0].value) == "[y0, y1 + 1, x0, x1 + 1]"
+    ok = ok and widen and len(rets) == 1 and norm_text(rets[0].value) == canon_src("[y0, y1 + 1, x0, x1 + 1]")
     ctx.ob(rule, z.key, ok, where=z, node=z.node, construct=f"{aug}; returns {norm_text(rets[0].value) if rets else None}", message="the zoom region must be [min row, max row + 1, min column, max column + 1] of the unmasked pixels, lower bounds only decreased and upper bounds only increased (every unmasked pixel inside)")
 
 
